@@ -368,7 +368,7 @@ class Check:
 
 def read_ndjson(path):
     out = []
-    with open(path) as f:
+    with open(path, errors="replace") as f:
         for line in f:
             line = line.strip()
             if not line:
